@@ -5,7 +5,7 @@ ALL_KINDS = None
 
 
 def storediff(name, kinds, quick, thorough, search=None):
-    base = ['-kinds', ','.join(kinds)] if kinds else []
+    base = (['-kinds', ','.join(kinds)] if kinds else []) + (['-dialect', 'pg'] if 'pgmodel' in name else [])
     return dict(bin='storediff', name=name,
                 quick=base + ['-scripts', str(quick[0]), '-batches', str(quick[1])],
                 thorough=base + ['-scripts', str(thorough[0]), '-batches', str(thorough[1])],
@@ -94,7 +94,8 @@ PROPS = {
     'C17': dict(
         modules=['Resonate.Properties.C17'],
         tie_filter=r'.*',
-        harness=[storediff('storediff-all', None, (25, 30), (800, 40), (300, 40))],
+        harness=[storediff('storediff-all', None, (25, 30), (800, 40), (300, 40)),
+                 dict(storediff('storediff-pgmodel', None, (25, 30), (800, 40), (300, 40)), regenerated_driver=True, divergence_is_violation=True)],
         rule='the deciding artefact is static: both statement sets and both handler argument lists are re-translated from /repo on every run and proved '
              'equal, definition by definition, to SqlSpec.defs .pg / .sqlite (110 tie theorems), whose store semantics are proved equal under DialectSafe; '
              'storediff validates the shared model against the real sqlite store (random batches over all 27 kinds; non-trivial = affected/returned >= 1 row)',
